@@ -121,7 +121,7 @@ impl GraphSnapshot for StorageSnapshot {
         prefix.extend_from_slice(&encode_ordered_value(&storage_value));
 
         let pager = self.pager.read().unwrap();
-        let mut cursor = tree.cursor_lower_bound(&pager, &prefix).ok()?;
+        let mut cursor = tree.cursor_first_ge(&pager, &prefix).ok()?;
 
         let mut results = Vec::new();
         while let Ok(valid) = cursor.is_valid() {
